@@ -14,6 +14,18 @@ def parts(case):
     return None, case[1], case[2], case[3]
 
 
+def many(n, blocked=2):
+    """n tiny grams pending at once behind a blocked transport, then it drains: nothing may be dropped from a long queue"""
+    grams = [(bytes([65 + i % 26, 48 + i % 10]), 1 + i % 3) for i in range(n)]
+    return ("tx", grams, [("w",)] * blocked + [("a", 1)], ["g"] + ["o"] * blocked + ["g", "g"])
+
+
+def held0(case):
+    """the remainder (bytes, dst) the application restored into .txbs at construction, or None"""
+    n = 5 if case[0] == "txp" else 4
+    return case[n] if len(case) > n and case[n] else None
+
+
 
 class C21(core.Check):
     pid = "C21"
@@ -76,6 +88,9 @@ class C21(core.Check):
             ("txp", "uxd", g2, [("a", 2), ("x", "timeout")], ["g", "g", "g"]),
             ("txp", "uxd", g2, [("x", "gaierror")], ["g", "g"]),
             ("tx", g2, [("a", 4)], ["g", "c", "g", "o", ("q", b"while-closed", 2), "r", "g", "g", "g"]),       # closed in between: nothing sent, nothing lost
+            many(2 ** 16 + 2),                                                     # more than 65535 grams pending at once: every one is sent, in order
+            ("tx", g2, [("a", 2)], ["g", "g", "g"], (b"restored-rest", 2)),       # the application restores a remainder into .txbs and owns .txgs / .txms
+            ("tx", [], [], ["g"], (b"r", 1)),
             ("tx", g2, [("w",)], ["g", "c", "r", "g", "g"]),                     # a gram held with 0 bytes accepted survives close() / reopen()
             ("tx", g2, [("w",)], ["o", "c", "r", "c", "r", "g", "g"]),           # … also through MemoerDoer.exit() / .enter()
             ("tx", g2, [("a", 3)], ["g", "c", "r", "g", "g"]),                   # a partly sent gram is continued after the reopening (what the code does today)
@@ -94,7 +109,10 @@ class C21(core.Check):
                 for c in outs:
                     for calls in (["g", "g", "g", "g", "g"], ["o", "o", "o", "g", "g", "g"], ["o", "g", "o", "g", "g", "g"]):
                         cs.append(("tx", [(b"ab", 1), (b"cde", 2)], [a, b, c], calls))
-        return cs, "2 grams (2 and 3 bytes) x all scripts of length 3 over {accept 0,1,2,all | would-block | ECONNREFUSED} x 3 call patterns"
+        for k in range(6, 17):
+            for n in (2 ** k - 1, 2 ** k, 2 ** k + 1):
+                cs.append(many(n, blocked=1 + k % 3))
+        return cs, "long queues of 2**k-1, 2**k, 2**k+1 tiny grams (k = 6..16) behind a blocked transport that then drains; 2 grams (2 and 3 bytes) x all scripts of length 3 over {accept 0,1,2,all | would-block | ECONNREFUSED} x 3 call patterns"
 
     def generate(self, rng, n, tier):
         for _ in range(n):
@@ -140,26 +158,29 @@ class C21(core.Check):
                 calls[i:i] = ["c"] + [rng.choice(["g", "o"]) for _ in range(rng.randrange(0, 3))] + ["r"]
             calls = [("a" if c == "g" and rng.random() < 0.15 else c) for c in calls]       # serviceAllTx is another way in
             calls += ["g"] * (len(script) + 2)
+            h0 = (bytes(rng.randrange(97, 123) for _ in range(rng.randrange(1, 9))), rng.randrange(1, nd + 1)) if rng.random() < 0.15 else None
             if rng.random() < 0.4:      # the same history one level down: the socket reports errnos, the real Peer.send sits in between
                 sock = [(("e", rng.choice(WOULDBLOCK)) if x[0] == "w" else x) for x in script]
                 sock = [(("x", rng.choice(sorted(A.EXOTIC))) if x[0] == "e" and rng.random() < 0.2 else x) for x in sock]   # as the OSError subclass a socket raises
-                yield ("txp", rng.choice(["udp", "uxd"]), grams, sock, calls)
+                yield ("txp", rng.choice(["udp", "uxd"]), grams, sock, calls) + ((h0,) if h0 else ())
             else:
-                yield ("tx", grams, script, calls)
+                yield ("tx", grams, script, calls) + ((h0,) if h0 else ())
 
     def request(self, case):
         peer, grams, script, calls = parts(case)
         cl = tuple((("g" if c == "a" else c) if isinstance(c, str) else ("q", bytes(c[1]), c[2])) for c in calls)
+        h0 = held0(case)
+        tb = (("txbs", bytes(h0[0]), h0[1]),) if h0 else ()
+        gr = ("grams",) + tuple((bytes(g), d) for g, d in grams)
         if peer:
-            return ("txp", ("peer", peer), ("grams",) + tuple((bytes(g), d) for g, d in grams),
-                    ("script",) + tuple(("e", A.sock_errno(s)) if s[0] in ("e", "x") else tuple(s) for s in script), ("calls",) + cl)
-        return ("tx", ("grams",) + tuple((bytes(g), d) for g, d in grams),
-                ("script",) + tuple(("e", A.errno_of(s[1])) if s[0] == "e" else tuple(s) for s in script),
-                ("calls",) + tuple((("g" if c == "a" else c) if isinstance(c, str) else ("q", bytes(c[1]), c[2])) for c in calls))
+            sc = ("script",) + tuple(("e", A.sock_errno(x)) if x[0] in ("e", "x") else tuple(x) for x in script)
+            return ("txp", ("peer", peer)) + tb + (gr, sc, ("calls",) + cl)
+        sc = ("script",) + tuple(("e", A.errno_of(x[1])) if x[0] == "e" else tuple(x) for x in script)
+        return ("tx",) + tb + (gr, sc, ("calls",) + cl)
 
     def run_impl(self, case):
         peer, grams, script, calls = parts(case)
-        return A.run_tx(grams, script, calls, peer)
+        return A.run_tx(grams, script, calls, peer, held0(case))
 
     # ---- the property as a predicate on what the transport saw
     def oracle(self, case, obs):
@@ -178,8 +199,12 @@ class C21(core.Check):
             wb = {A.errno_of(n) for n in WOULDBLOCK}
             obs = [o if o[0] != "call" else ("call",) + tuple((d, off, ("w",) if r[0] == "e" and r[1] in wb else r) for d, off, r in o[1:])
                    for o in obs]
-        q = [(bytes(g), d) for g, d in grams]
+        from collections import deque as _dq
+        q = _dq((bytes(g), d) for g, d in grams)
         cur = None          # [gram, dst, offset]
+        h0 = held0(case)
+        if h0:
+            cur = [bytes(h0[0]), h0[1], 0]      # a remainder restored at construction is sent first
         consumed = 0
         it = iter(obs)
         escaped = False
@@ -214,7 +239,7 @@ class C21(core.Check):
                     if not q:
                         bad.append("send-with-nothing-queued")
                         return bad
-                    g, d = q.pop(0)
+                    g, d = q.popleft()
                     cur = [g, d, 0]
                 if dst != cur[1] or offered != cur[0][cur[2]:]:
                     bad.append("gram-lost-duplicated-or-reordered")   # F34 shows up here: the next gram starts while one is unsent
@@ -244,7 +269,7 @@ class C21(core.Check):
         st = dict((x[0], x[1:]) for x in o[1])
         held_q = [(bytes(g), d) for g, d in st["txgs"]]
         held_b = (bytes(st["txb"][0]), st["dst"][0])
-        if held_q != q:
+        if held_q != list(q):
             bad.append("queue-differs-from-unsent-grams")
         if cur is None:
             if held_b[1] is not None:
@@ -299,8 +324,12 @@ class C21(core.Check):
 
     def shrink(self, case):
         peer, grams, script, calls = parts(case)
+        h0 = held0(case)
+        ex = (h0,) if h0 else ()
         for c in self._shrink3(("tx", grams, script, calls)):
-            yield (("txp", peer) + tuple(c[1:])) if peer else c
+            yield ((("txp", peer) + tuple(c[1:])) if peer else c) + ex
+        if h0:
+            yield (("txp", peer, grams, script, calls) if peer else ("tx", grams, script, calls))
 
     def _shrink3(self, case):
         _, grams, script, calls = case
